@@ -1,9 +1,12 @@
+pub mod client_codec;
 pub mod server_family;
 
 pub fn run(id: &str, tier: &str) -> i32 {
     match id {
         "C01" => server_family::check_c01(tier),
         "C02" => server_family::check_c02(tier),
+        "C03" => client_codec::check_c03(tier),
+        "C04" => client_codec::check_c04(tier),
         "C08" => server_family::check_c08(tier),
         "C17" => server_family::check_c17(tier),
         _ => {
@@ -36,6 +39,8 @@ pub fn replay(path: &str) -> i32 {
             let s: server_family::ServerScenario = serde_json::from_value(scn["scenario"].clone()).expect("scenario");
             server_family::replay(&s).into_iter().map(|(a, b, c)| (a, format!("step {c}: {b}"))).collect()
         }
+        Some("c03") | Some("c03-ctor") | Some("c03-wm") => client_codec::replay_c03(scn),
+        Some("c04") => client_codec::replay_c04(scn),
         k => {
             eprintln!("unknown replay kind {k:?}");
             return 2;
